@@ -12,7 +12,7 @@ python3 - "$OUT" <<'PY'
 import json,re,sys
 out=open(sys.argv[1],errors='replace').read()
 passed=set()
-for m in re.finditer(r'^\s+PASS \[[^\]]*\]\s+(?:\(\s*\d+/\d+\)\s+)?(\S+)\s+(\S+)\s*$', out, re.M):
+for m in re.finditer(r'^\s+(?:PASS|LEAK) \[[^\]]*\]\s+(?:\(\s*\d+/\d+\)\s+)?(\S+)\s+(\S+)\s*$', out, re.M):
     passed.add(m.group(1)+'::'+m.group(2))
 base=json.load(open('/root/.vp/BASELINE.json'))['stable_pass']
 missing=[t for t in base if t not in passed]
